@@ -183,7 +183,7 @@ def _check_stl(rec, text, V, F, sig):
 
 
 def clauses():
-    return [Clause("export", _case(), _run, quick=320, thorough=8000, rule="see RULE",
+    return [Clause("export", _case(), _run, quick=1280, thorough=8000, rule="see RULE",
                    floors={"exponent_notation": 0.25, "deg>=5": 0.05, "nonconvex": 0.15, "negative_coords": 0.5})]
 
 
